@@ -926,7 +926,7 @@ func (e *Engine) runPath(st *State) (end PathEnd) {
 		st.steps++
 		e.nSteps++
 		if st.steps > e.maxSteps {
-			return PathEnd{kind: "unwind", msg: "step limit", st: st}
+			return PathEnd{kind: "unwind", msg: "step limit in " + fr.fn.String(), st: st}
 		}
 		if e.trace {
 			fmt.Fprintf(os.Stderr, "  [%d] %s b%d.%d %s\n", len(st.frames), fr.fn.Name(), fr.blk.Index, fr.idx, in)
@@ -1767,6 +1767,14 @@ func (e *Engine) callFn(st *State, fr *Frame, in *ssa.Call, callee *ssa.Function
 		if v == pushedMarker {
 			return false
 		}
+		if v == callReal {
+			e.models[name]--
+			if len(callee.Blocks) == 0 {
+				abort("unsupported", "external function without body: %s", name)
+			}
+			e.pushFrame(st, callee, args, bind, in)
+			return false
+		}
 		fr.env[in] = v
 		fr.idx++
 		return false
@@ -1796,9 +1804,10 @@ func (e *Engine) callFn(st *State, fr *Frame, in *ssa.Call, callee *ssa.Function
 	return false
 }
 
-type marker struct{}
+type marker struct{ tag string }
 
-var pushedMarker = &marker{}
+var pushedMarker = &marker{"pushed"}
+var callReal = &marker{"callreal"}
 
 func (e *Engine) builtin(st *State, fr *Frame, name string, cc *ssa.CallCommon, args []Val) Val {
 	switch name {
